@@ -406,6 +406,25 @@ Proof.
         congruence.
 Qed.
 
+(* the shape of what the compiler emits: tensor products of the gates of the layer and of one-qubit
+   identities, conjugated by swaps of two in-range bit positions (used for unitarity) *)
+Lemma layer_shape : 0 < n ->
+  exists sw G T, layer_matrix K k0 k1 kmul n ops = Ok (fold_left (fun m s => conj_swap K (fst s) (snd s) m) (rev sw) T) /\
+    tensor_all K kmul G = Some T /\ Forall good_group G /\ swaps_in_range n sw /\ nq T = n.
+Proof.
+  intros Hn.
+  destruct (build_runs (S n) (seq 0 n) [] None 0 [] (inv_init Hn)) as [L [sw [res [G [Hb I]]]]]; [lia|].
+  destruct I as [Hlen Hnd Hin Hsw Hrange _ Hpre Hres Hgood Hclosed].
+  assert (HL : L = concat (map fst G)).
+  { rewrite <- Hpre. rewrite <- Hlen. symmetry. apply firstn_all. }
+  assert (HGne : G <> []).
+  { intros E. rewrite E in HL. simpl in HL. rewrite HL in Hlen. simpl in Hlen. lia. }
+  destruct (tensor_all_spec K k1 kmul mul1l G (good_wf G Hgood) HGne) as [T [HT [HnT _]]].
+  exists sw, G, T. unfold layer_matrix, layer_matrix_gen. rewrite Hb, Hres, HT.
+  split; [reflexivity|]. split; [reflexivity|]. split; [exact Hgood|]. split; [exact Hrange|].
+  rewrite HnT, <- HL. exact Hlen.
+Qed.
+
 End Q.
 
 (* ---------- every layer of a circuit satisfies the hypotheses, so a whole circuit compiles ---------- *)
